@@ -155,6 +155,38 @@ for f in sorted(both):
 rep.append("")
 rep.append(f"TOTAL lines {tot[0]}   tie {tot[1]} ({100.0*tot[1]/max(1,tot[0]):.1f}%)   tie+oracle {tot[2]} ({100.0*tot[2]/max(1,tot[0]):.1f}%)")
 rep.append(f"TOTAL branch outcomes {btot[0]}   tie {btot[1]} ({100.0*btot[1]/max(1,btot[0]):.1f}%)")
+# per-property view: which lines of each file does a property's OWN stream (run + oracle) reach?
+rep.append("")
+rep.append("per-property streams (run + oracle), lines reached per file; '.' = file not touched")
+files = sorted(both)
+short = [f[len('/repo/src/'):] for f in files]
+rep.append(f"{'':5s}" + "".join(f"{s[-14:]:>16s}" for s in short))
+permiss = {}
+for pid in props:
+    raws = glob.glob(f"{COV}/prof/run/{pid}-*.profraw") + glob.glob(f"{COV}/prof/oracle/{pid}-*.profraw")
+    if not raws:
+        continue
+    pd = f"{COV}/{pid}.profdata"
+    sh([f"{NIGHTLY_BIN}/llvm-profdata", "merge", "-sparse", "-o", pd] + raws)
+    p = subprocess.run([f"{NIGHTLY_BIN}/llvm-cov", "export", "-format=lcov", f"-instr-profile={pd}", IBIN],
+                       stdout=subprocess.PIPE, stderr=subprocess.DEVNULL, text=True)
+    cur = None; cov = {}
+    for l in p.stdout.split("\n"):
+        if l.startswith("SF:"):
+            cur = l[3:]; cov.setdefault(cur, {})
+        elif l.startswith("DA:") and cur:
+            ln, cnt = l[3:].split(",")[:2]
+            cov[cur][int(ln)] = cov[cur].get(int(ln), 0) + int(cnt)
+    row = f"{pid:5s}"
+    for f in files:
+        ts = test_start(f); dr = display_ranges(f)
+        lines = [n for n in both[f] if n < ts and not any(a <= n <= b for a, b in dr)]
+        hit = [n for n in lines if cov.get(f, {}).get(n, 0) > 0]
+        permiss[(pid, f)] = sorted(set(lines) - set(hit))
+        row += f"{(str(len(hit)) + '/' + str(len(lines))) if hit else '.':>16s}"
+    rep.append(row)
+import pickle
+pickle.dump(permiss, open(f"{VERIF}/.build/tiecov-permiss.pkl", "wb"))
 text = "\n".join(rep) + "\n"
 print(text)
 open(f"{VERIF}/design-notes/tie-coverage.txt", "w").write(text)
